@@ -28,6 +28,27 @@ func main() {
 		os.Exit(cmdReplay(os.Args[2:]))
 	case "selftest":
 		os.Exit(cmdSelftest(os.Args[2:]))
+	case "seeds":
+		os.Exit(cmdSeeds(os.Args[2:]))
+	case "tierb":
+		p, err := load.Load(load.Config{Dir: "/repo"})
+		if err != nil {
+			fmt.Fprintln(os.Stderr, err)
+			os.Exit(2)
+		}
+		b, err := rules.TierBSnapshot(p)
+		if err != nil {
+			fmt.Fprintln(os.Stderr, err)
+			os.Exit(2)
+		}
+		os.Stdout.Write(b)
+	case "schemas":
+		p, err := load.Load(load.Config{Dir: "/repo"})
+		if err != nil {
+			fmt.Fprintln(os.Stderr, err)
+			os.Exit(2)
+		}
+		rules.DumpSchemas(p)
 	case "locks":
 		os.Exit(cmdLocks(os.Args[2:]))
 	case "dump":
